@@ -90,15 +90,58 @@ def observe(h: Any, e: Any, state: dict[str, Any]) -> Any:
 
 ORACLE = Oracle(on_quiescent=on_quiescent, observe=observe)
 
+
+def wf_worker_goes_away(w: int) -> type:
+    """one invocation of ``work`` ends with CancelledError although nobody cancelled the run (it awaited something
+    that was cancelled): its worker task goes away without a result tick, while the rest of the run goes on"""
+    import asyncio
+
+    from vmc.engine import gate, make_step, make_workflow
+    from vmc.events import Done, Work
+    from workflows.events import StartEvent, StopEvent
+
+    async def start(self, ctx, ev, inv):  # noqa: ANN001
+        for i in range(3):
+            ctx.send_event(Work(uid=i))
+        await gate("start")
+        return StopEvent(result="done")
+
+    async def work(self, ctx, ev, inv):  # noqa: ANN001
+        await gate(f"w{ev.uid}")
+        if ev.uid == 0:
+            f = asyncio.get_running_loop().create_future()
+            f.cancel()
+            await f
+        return Done(uid=ev.uid)
+
+    async def fin(self, ctx, ev, inv):  # noqa: ANN001
+        r = ctx.collect_events(ev, [Done] * 3)  # never complete: Work0 produces nothing
+        return None if r is None else StopEvent(result="all")
+
+    return make_workflow("WorkerGoesAway", [
+        make_step("start", [StartEvent], [Work, StopEvent], start),
+        make_step("work", [Work], [Done], work, num_workers=w),
+        make_step("fin", [Done], [StopEvent, None], fin, num_workers=1),
+    ])
+
+
+def extra_specs(tier: str) -> list[Any]:
+    from vmc.progs import Spec
+
+    q = tier == "quick"
+    return [Spec("worker_goes_away(w=1)", {}, lambda: wf_worker_goes_away(1), max_dev=(3 if q else None), tags=("cancelled_worker",)),
+            Spec("worker_goes_away(w=2)", {}, lambda: wf_worker_goes_away(2), max_dev=(3 if q else 6), tags=("cancelled_worker",))]
+
 RULE = ("all schedules of the shared engine program catalog incl. resumed runs and runs continued from the context of a "
-        "run that ended with work left over (running / queued invocations, partial collections, a registered waiter); at every quiescent point of every "
+        "run that ended with work left over (running / queued invocations, partial collections, a registered waiter), plus a run one of "
+        "whose worker tasks ends with CancelledError while the run goes on; at every quiescent point of every "
         "execution canon(live runner state) is compared with canon(rebuild_state_from_ticks(init_state, recorded "
         "ticks)) (timestamps masked) and with ctx.to_dict(); non-trivial = at least one deviation from the default "
         "schedule")
 
 
 def programs(tier: str) -> list[Any]:
-    return to_programs(catalog(tier) + continue_specs(tier), ORACLE)
+    return to_programs(catalog(tier) + continue_specs(tier) + extra_specs(tier), ORACLE)
 
 
 def run(tier: str, seed: int) -> Any:
